@@ -2,5 +2,10 @@
 import X86Model.Base
 import X86Model.Model.Addr
 import X86Model.Model.Page
+import X86Model.Model.AddrProg
 import X86Model.Spec.Canon
+import X86Model.Properties.C03
+import X86Model.Properties.C04
 import X86Model.Properties.C05
+import X86Model.Properties.C06
+import X86Model.Properties.C07
